@@ -36,7 +36,22 @@ SPECIAL = ["\xa0" + "x" * 30, "y" * 30 + "\xa0", "\xa0z" * 12, 'say "hi"\n', '"q
            "a.b", "a:b", "^ptr", "a%b", "a~b", "a|b", "a!b", "[a]", "\\n",
            "N/A", "km/s", "UNK", "x" * 45, "word " * 25, "w-" * 30,
            "ends with dash -", "dash- mid", "tab\there", "é", "µm", "\x0b", "\f"]
-HAZARD_STRINGS = KEYWORD_LIKE + NUMBER_LIKE + DATE_LIKE + SPECIAL
+# words that only *begin* like a keyword, file names and the like (round 5)
+KEYWORD_PREFIXED = ["end.cub", "group.lis", "END-TO-END", "Object/default.pvl",
+                    "end-member", "end:1", "END_GROUPS", "null.dat", "true.x", "NULL-1",
+                    "False_color", "ENDURANCE", "Group2", "begin_object.txt", "end;",
+                    "END=", "object(1)", "true/false", "null,void"]
+# string content that looks like label text: lines that are only a keyword or a statement
+LABEL_LIKE = ["from the start to the\nEND\nof the mapping phase.", "x\nEND_GROUP\ny",
+              "a\nGROUP = g\nb", "l1\nEnd\n", "text\nEND;\nmore", "q\n  end  \nr",
+              "first\r\nEND\r\nlast", "k = v\nb = 2", "see\nEnd_Object = o\nbelow",
+              "tail\nEND", "END\nhead", "/* not a\ncomment */ x", "# not a comment\nx",
+              "a # b -\nc", "rule -----\nnext", "# ---- geometry ----", "x #3 is -\n broken"]
+# longer than any buffer or limit a lexer might have (4 kB)
+LONG = ["word " * 900, "x" * 4100, ("line one\n" * 500), "y" * 4095, "z" * 4096,
+        "w" * 4097, "ab " * 1366]
+HAZARD_STRINGS = KEYWORD_LIKE + NUMBER_LIKE + DATE_LIKE + SPECIAL + KEYWORD_PREFIXED + \
+    LABEL_LIKE
 
 PVL_CHARS = "".join(chr(c) for c in range(256)
                     if not (c <= 8 or 14 <= c <= 31 or 127 <= c <= 159))
@@ -69,10 +84,12 @@ def strings(dialect):
                     min_size=22, max_size=22)
     dashy = st.tuples(dashy, seps).map(
         lambda t: "".join(w + s for w, s in zip(t[0], t[1])).rstrip(" \t"))
+    longs = st.sampled_from([s for s in LONG if ok(s)])
     return st.one_of(
         st.sampled_from(pool),
         st.sampled_from(pool),
         st.sampled_from(lexemes),
+        st.integers(0, 19).flatmap(lambda k: longs if k == 0 else st.sampled_from(pool)),
         dashy,
         st.text(alphabet=cs, max_size=12),
         st.text(alphabet="abAB01_-+.:#/ '\"\n\t", max_size=8),
@@ -108,13 +125,32 @@ def names(dialect):
     if dialect not in ODL_FAMILY:
         opts.append(st.tuples(base, st.sampled_from(["-", ".", "/", "$", "@"]),
                               base).map("".join))
+    opts.append(st.integers(0, 2).flatmap(
+        lambda k: near_miss_names() if k == 0 else base))
     return st.one_of(*opts)
+
+
+# names no dialect can write as they are (an encoder has to refuse them) and names
+# only some dialects can write; used with a low weight for keys and block names
+NEAR_MISS_NAMES = ["abc\n", "abc ", " abc", "a b", "abc\r\n", "abc_", "1abc", "", "end",
+                   "END", "End", "group", "OBJECT", "end_group", "a=b", "a;b", "a#b",
+                   "a\tb", "12:00", "1", "-1", "1.5", "2001-01-01", "-", "x-", "/*a", "a*/",
+                   "null", "TRUE", "false", "a,b", "(a)", "{a", "<a>", "'a'", '"a"', "a'b",
+                   "mro:orbit\n", "^image\n", "mro\n:orbit", "^", "a:", ":a", "a:b:c",
+                   "16#FF#", "+", "+a", "a&b", "\xa0a", "a\x0b", "é"]
+
+
+@functools.lru_cache(maxsize=None)
+def near_miss_names():
+    return st.sampled_from(NEAR_MISS_NAMES)
 
 
 @functools.lru_cache(maxsize=None)
 def block_names():
     return st.one_of(identifiers(), st.sampled_from(["g", "obj", "Image", "IMAGE"]),
-                     st.sampled_from(["g", "G", "x-", "a.b", "blk-1"]))
+                     st.sampled_from(["g", "G", "x-", "a.b", "blk-1"]),
+                     st.integers(0, 7).flatmap(
+                         lambda k: near_miss_names() if k == 0 else identifiers()))
 
 
 @functools.lru_cache(maxsize=None)
@@ -136,14 +172,42 @@ def floats():
 
 TZ_MINUTES = [None, 0, 60, -60, 330, -210, 720, -720, 45, -900, 570, 765, -765, 750,
               -30]
+# "rule": a tzinfo whose offset depends on the date (zoneinfo / dateutil style): -04:00 from
+# April to October, -05:00 otherwise, and *no* offset for a time of day without a date
+RULE_TZ = "rule"
+
+
+def rule_offset_minutes(month):
+    return -240 if 4 <= month <= 10 else -300
+
+
+class RuleTz(dtm.tzinfo):
+    def utcoffset(self, dt):
+        if dt is None:
+            return None
+        return dtm.timedelta(minutes=rule_offset_minutes(dt.month))
+
+    def dst(self, dt):
+        if dt is None:
+            return None
+        return dtm.timedelta(hours=1 if 4 <= dt.month <= 10 else 0)
+
+    def tzname(self, dt):
+        return "RULE"
+
+    def __repr__(self):
+        return "RuleTz()"
+
+    def __reduce__(self):
+        return (RuleTz, ())
 
 
 @functools.lru_cache(maxsize=None)
 def tzs(dialect=None):
     if dialect == "ODL":
         # ODL refuses naive times: keep them rare so that zoned ones get written
-        return st.sampled_from(TZ_MINUTES[1:] * 4 + [None])
-    return st.sampled_from(TZ_MINUTES)
+        return st.sampled_from(TZ_MINUTES[1:] * 4 + [None, RULE_TZ, RULE_TZ])
+    return st.sampled_from(TZ_MINUTES + [RULE_TZ])
 
 
 @functools.lru_cache(maxsize=None)
@@ -178,13 +242,15 @@ def datetimes(dialect=None):
 ODL_UNITS = ["m", "KM", "m/s", "km**2", "m*s**-1", "deg", "pixel", "m/s/s",
              "kg*m**2", "DEGREES", "W/(m**2)", "km\t/ s", "m /\ts", "m / s"]
 PVL_UNITS = ODL_UNITS + ["m s", "km per s", "%", "a.b", "deg C", "1/s", "µm",
-                         "m^2", "'", "it's", "a=b", "(", "#"]
+                         "m^2", "'", "it's", "a=b", "(", "#", "m\n/s", "", "m>", "<m",
+                         "a -\n b", "/* c */", "x # y"]
 
 
 @functools.lru_cache(maxsize=None)
 def units(dialect):
     if dialect in ODL_FAMILY:
-        return st.sampled_from(ODL_UNITS + ["m s", "bad unit!", "3m", "m**x"])
+        return st.sampled_from(ODL_UNITS + ["m s", "bad unit!", "3m", "m**x", "m\n/s",
+                                            "m\r\n/s", "km /\x0cs", "", " ", "m>", "<m"])
     return st.sampled_from(PVL_UNITS)
 
 
@@ -199,7 +265,8 @@ def scalars(dialect):
 def quantities(dialect, inner):
     num = st.one_of(ints(), floats())
     if dialect in ODL_FAMILY:
-        val = st.one_of(num, num, num, strings(dialect))
+        val = st.one_of(num, num, num, strings(dialect),
+                        st.sampled_from([True, False, None, {"date": [2001, 1, 1]}]))
     else:
         val = st.one_of(num, num, scalars(dialect), inner)
     return st.tuples(val, units(dialect)).map(lambda t: {"q": [t[0], t[1]]})
@@ -279,6 +346,8 @@ def modules(dialect):
 def tzinfo_of(tz):
     if tz is None:
         return None
+    if tz == RULE_TZ:
+        return RuleTz()
     if tz == 0:
         return dtm.timezone.utc
     return dtm.timezone(dtm.timedelta(minutes=tz))
